@@ -157,7 +157,20 @@ def validate_shard(prop, path, timeout=1800, xmx="1500m"):
         res["events"] = int(m.group(1))
     for m in _NONCONF_RE.finditer(out):
         res["nonconf"].append((int(m.group(1)), sorted(_TAG_RE.findall(m.group(2).replace('\\"', '"')))))
-    if out.count("NONCONF") != len(res["nonconf"]):
+    n_lines = len(res["nonconf"])
+    # tags prefixed x_ are checks BEYOND the listed properties (spec growth): a difference there is a note
+    # (recorded in the evidence), never a violation
+    res["notes"] = {}
+    core = []
+    for ln, tags in res["nonconf"]:
+        for t in tags:
+            if t.startswith("x_"):
+                res["notes"][t] = res["notes"].get(t, 0) + 1
+        keep = [t for t in tags if not t.startswith("x_")]
+        if keep:
+            core.append((ln, keep))
+    res["nonconf"] = core
+    if out.count("NONCONF") != n_lines:
         res["error"] = "could not parse every NONCONF line of TLC's output:\n" + out[-3000:]
     for m in re.finditer(r'^<<"CLASS", "([^"]+)", (\d+)>>\s*$', out, re.M):
         res["classes"][m.group(1)] = res["classes"].get(m.group(1), 0) + int(m.group(2))
@@ -227,6 +240,7 @@ class Run:
         self.samples = []
         self.violations = []      # (ident, replay path, text)
         self.known = []
+        self.notes = {}           # beyond-property differences (tag -> count)
         self.tool_errors = []
         self.extra = {}
         self.nontrivial = set()
@@ -278,6 +292,8 @@ class Run:
                         self.nontrivial.add(key)
             if not self.samples and evs:
                 self.samples.append(sample_of(evs[min(len(evs) - 1, 7)]))
+            for t, n in r.get("notes", {}).items():
+                self.notes[t] = self.notes.get(t, 0) + n
             for (line, failed) in r["nonconf"]:
                 ev = evs[line - 1]
                 ident = ident_fn(ev, failed)
@@ -310,6 +326,11 @@ class Run:
             "exhaustive": self.exhaustive,
         }
         cov.update(self.extra)
+        if self.notes:
+            cov["beyond_property_notes"] = self.notes
+            for t, n in sorted(self.notes.items()):
+                print(f"NOTE: property={self.prop} the code differs from the specification in {n} event(s) on '{t[2:]}', "
+                      f"which no listed property constrains (not a violation)")
         ev = {
             "property_id": self.prop, "tier": self.tier, "seed": self.seed, "level": self.level,
             "coverage": cov, "assumptions": self.assumptions, "wall_s": round(wall, 2),
